@@ -77,6 +77,8 @@ def run(tier):
         else:
             p, a, script = gen.single_query(logic, rng, options=opts, big=True, after_check=lambda p, r: ["(get-model)"])
         mcases.append({"idx": i, "logic": logic, "options": opts, "script": script})
+    for f in sorted((common.VERIF / "corpus" / "C02" / "models").glob("*.smt2")):
+        mcases.insert(0, {"idx": f.name, "logic": "corpus", "options": [], "script": f.read_text()})
     with mp.Pool(min(common.JOBS, 14)) as pool:
         mres = pool.map(c03.run_case, [(c, binary, 10 if tier == "quick" else 30) for c in mcases], chunksize=4)
     models = 0
@@ -92,7 +94,8 @@ def run(tier):
             # opensmt said sat and printed a model that is not a model: is the assertion set unsat?
             ext = extsolve.verdict(c["script"]) if c["script"].count("(check-sat)") == 1 else "n/a"
             chk.violation("sat-without-model", f"{pr['what']}; external verdict {ext} ({c['logic']})",
-                          {"script": c["script"], "problem": pr, "external_verdict": ext, "impl_stdout": r.get("stdout")})
+                          {"script": c["script"], "problem": pr, "external_verdict": ext, "impl_stdout": r.get("stdout")},
+                          match_key=c03.classify(pr, c))
     chk.assumptions = ["array logics excluded (no model printing)",
                        "completeness of the theory solvers' final check is certified per run by the validated model, not proved"]
     return chk.finish(rule="cases: corpus scripts with expected answers; traced runs (non-trivial = has a sat answer, accepted "
